@@ -94,6 +94,75 @@ def shaped_enums():
     return _SHAPED
 
 
+class _Lcg:
+    def __init__(self, seed):
+        self.x = seed & 0xFFFFFFFF
+
+    def next(self, n):
+        self.x = (1103515245 * self.x + 12345) & 0x7FFFFFFF
+        return (self.x >> 8) % n
+
+    def pick(self, xs):
+        return xs[self.next(len(xs))]
+
+
+N_GENERATED = {"quick": 12, "thorough": 80}
+_GEN = {}
+
+
+def _generated_layouts():
+    """Layouts drawn at random with a fixed seed: struct / union / array / flexible, nested to depth 2, fields of unsigned,
+    signed, zero-width, range, plain-enum and shaped-enum shapes; total size <= 16 bits."""
+    if _GEN:
+        return _GEN
+    from amaranth.hdl import unsigned, signed, Shape
+    from amaranth.lib import data
+    se = shaped_enums()
+    g = _Lcg(15092026)
+
+    def scalar():
+        k = g.next(12)
+        if k < 4:
+            return unsigned(g.pick([0, 1, 1, 2, 3, 4]))
+        if k < 7:
+            return signed(g.pick([1, 2, 3, 4]))
+        if k == 7:
+            return range(-3, 2)
+        if k == 8:
+            return range(2, 6)
+        if k == 9:
+            return Sgn
+        if k == 10:
+            return se["SOp"]
+        return se["UOp"]
+
+    def lay(depth):
+        k = g.next(10)
+        def member():
+            return lay(depth + 1) if depth < 2 and g.next(4) == 0 else scalar()
+        names = ["a", "b", "c", "d"]
+        if k < 4:
+            return data.StructLayout({names[i]: member() for i in range(1 + g.next(4))})
+        if k < 6:
+            return data.UnionLayout({names[i]: member() for i in range(1 + g.next(3))})
+        if k < 8:
+            return data.ArrayLayout(member(), g.pick([0, 1, 2, 2, 3]))
+        fields, size = {}, 0
+        for i in range(1 + g.next(3)):
+            sh = member()
+            off = g.next(6)
+            fields[names[i] if g.next(4) else i] = data.Field(sh, off)
+            size = max(size, off + Shape.cast(sh).width)
+        return data.FlexibleLayout(size + g.next(3), fields)
+    n = 0
+    while len(_GEN) < N_GENERATED["thorough"]:
+        n += 1
+        L = lay(0)
+        if 0 < L.size <= 16:
+            _GEN[f"gen{len(_GEN):02d}"] = L
+    return _GEN
+
+
 def LAYOUTS():
     from amaranth.hdl import unsigned, signed
     from amaranth.lib import data
@@ -114,12 +183,15 @@ def LAYOUTS():
         "array-empty": data.ArrayLayout(unsigned(3), 0),
         "flex": data.FlexibleLayout(8, {"lo": data.Field(unsigned(3), 0), "ov": data.Field(signed(4), 2), 7: data.Field(unsigned(1), 7)}),
         "empty-struct": data.StructLayout({}),
+        **_generated_layouts(),
     }
 
 
 def tasks(tier):
     ts = [("placement",)]
     for name in LAYOUTS():
+        if name.startswith("gen") and int(name[3:]) >= N_GENERATED["quick" if tier == "quick" else "thorough"]:
+            continue
         ts += [("const-read", name), ("const-build", name), ("view", name), ("view-assign", name)]
     ts += [("enum-roundtrip",), ("flags", 0), ("flags", 1), ("flags", 2)]
     ts += [("class-const", c) for c in ("SDef", "SPlain", "UDef")]
